@@ -467,6 +467,9 @@ func c10TransformUnit(r *rand.Rand) string {
 			ks := make([]string, r.Intn(3))
 			for i := range ks {
 				ks[i] = pv()
+				if r.Intn(6) == 0 {
+					ks[i] = []string{"fn:plus(" + pv() + ", 1)", "fn:pair(" + pv() + ", " + pv() + ")", "1", "/a", "[" + pv() + "]"}[r.Intn(5)]
+				}
 			}
 			st = append(st, "do fn:group_by("+strings.Join(ks, ", ")+")")
 		}
@@ -547,7 +550,7 @@ func c10TransformUnit(r *rand.Rand) string {
 var c10Descr = []string{"doc(\"d\")", "doc()", "arg(X, \"first\")", "arg(Q, \"no such\")", "mode('+', '-')", "mode('+')", "mode('-', '-', '+')", "mode('?', '+')", "mode(1)",
 	"fundep([X], [Y])", "fundep([Y], [X])", "fundep([X], [Q])", "fundep([], [X])", "fundep(X, Y)", "merge([Y], 'mrg')", "merge([X], 'nosuch')", "merge(Y, mrg)", "deferred()", "synthetic()",
 	"extensional()", "reflects(/a)", "reflects(/a/b)", "reflects(\"x\")", "reflects()", "temporal()", "internal:maybe_temporal()", "private()", "external()", "name(/n)", "desugared()",
-	"mode('+', '-'), mode('-', '+')", "unknown_descr(1)", "fundep([X], [Y]), merge([Y], 'mrg')"}
+	"mode('+', '-'), mode('-', '+')", "mode('+', '-'), mode('-', '*')", "mode('-', '-'), mode('x', '+')", "mode('+'), mode('*')", "mode('+', '-', '-'), mode('-', 1, '+')", "mode('?', '?'), mode('', '+')", "unknown_descr(1)", "fundep([X], [Y]), merge([Y], 'mrg')"}
 
 var c10BoundTypes = []string{"/any", "/number", "/string", "/name", "/a", "/a/b", "fn:List(/number)", ".List</string>", "fn:Pair(/name, /number)", "fn:Map(/string, /any)", "fn:Struct(/f, /number)",
 	"fn:Struct(/f, /number, fn:opt(/g, /string))", "fn:Union(/a, /number)", "fn:Union()", "fn:Singleton(/a/b)", "fn:Tuple(/number, /number, /number)", "fn:Option(/number)", "fn:List()", "fn:Pair(/number)",
